@@ -53,7 +53,7 @@ DVDef == [ d0 |-> [own |-> "s0", alloc |-> Topology, inv |-> Model,    auto |-> 
            d3 |-> [own |-> "s1", alloc |-> Model,    inv |-> Dynamics, auto |-> "c5"],
            d4 |-> [own |-> "s0", alloc |-> Topology, inv |-> Report,   auto |-> "c6"] ]
 
-CE == {"c0", "c1", "c2", "c3", "c4", "c5", "c6", "c7", "c8"}
+CE == {"c0", "c1", "c2", "c3", "c4", "c5", "c6", "c7", "c8", "c9"}
 CEDef == [ c0 |-> [own |-> "s0", alloc |-> Topology, dep |-> Position, comp |-> Infinity, pre |-> {}],
            c1 |-> [own |-> "s0", alloc |-> Model,    dep |-> Time,     comp |-> Velocity, pre |-> {}],
            c2 |-> [own |-> "s1", alloc |-> Instance, dep |-> Position, comp |-> Infinity, pre |-> {"d2", "c0"}],
@@ -62,7 +62,10 @@ CEDef == [ c0 |-> [own |-> "s0", alloc |-> Topology, dep |-> Position, comp |-> 
            c5 |-> [own |-> "s1", alloc |-> Model,    dep |-> Time,     comp |-> Infinity, pre |-> {}],
            c6 |-> [own |-> "s0", alloc |-> Topology, dep |-> Velocity, comp |-> Infinity, pre |-> {}],
            c7 |-> [own |-> "s1", alloc |-> Model,    dep |-> Instance, comp |-> Dynamics, pre |-> {"z", "d1", "u"}],
-           c8 |-> [own |-> "s1", alloc |-> Instance, dep |-> Time,     comp |-> Infinity, pre |-> {"d3"}] ]
+           c8 |-> [own |-> "s1", alloc |-> Instance, dep |-> Time,     comp |-> Infinity, pre |-> {"d3"}],
+           \* downstream of an entry that is valid "by stage" (finite computed-by stage) and is
+           \* therefore normally never marked explicitly
+           c9 |-> [own |-> "s1", alloc |-> Model,    dep |-> Instance, comp |-> Infinity, pre |-> {"c7"}] ]
 \* order in which autoUpdateDiscreteVariables visits (subsystem, then index)
 AutoOrder == <<"d4", "d3">>
 
@@ -109,7 +112,13 @@ ImplValid(r, c) ==
 \* updated SEPARATELY so that a deviation in the mechanism shows up as a Refinement failure.
 Step(r, X) == X \cup {c \in ExCs(r) : CEDef[c].pre \cap X # {}}
 KFull(r, X) == Step(r, Step(r, Step(r, X)))
-KImpl(r, X) == IF "NoDependentNotify" \in DEV \/ r.noReg THEN X ELSE KFull(r, X)
+\* deviation SkipUnflagged: invalidate() returns early on an entry whose flags are already in the
+\* cleared state -- wrong, because such an entry may be valid by stage and have valid dependents
+Flagged(r, c) == r.recVer[c] # 0 \/ r.utd[c]
+StepD(r, E) == E \cup {c \in ExCs(r) : CEDef[c].pre \cap E # {} /\ Flagged(r, c)}
+KSkip(r, X) == StepD(r, StepD(r, StepD(r, {x \in X : Flagged(r, x)})))
+KImpl(r, X) == IF "NoDependentNotify" \in DEV \/ r.noReg THEN X
+               ELSE IF "SkipUnflagged" \in DEV THEN KSkip(r, X) ELSE KFull(r, X)
 Unmark(r, X)  == [r EXCEPT !.marked = [c \in CE |-> IF c \in X THEN FALSE ELSE @[c]]]
 ImplInv(r, X) ==
   [r EXCEPT !.recVer = [c \in CE |-> IF c \in X THEN 0 ELSE @[c]],
@@ -122,7 +131,9 @@ DependentsOf(r, name) == {c \in ExCs(r) : name \in CEDef[c].pre}
 NotePrereq(r, name) ==
   LET K  == KFull(r, DependentsOf(r, name))
       r1 == Unmark(r, K)
-  IN IF r.noReg \/ "NoDependentNotify" \in DEV THEN r1 ELSE ImplInv(r1, K)
+  IN IF r.noReg \/ "NoDependentNotify" \in DEV THEN r1
+     ELSE IF "SkipUnflagged" \in DEV THEN ImplInv(r1, KSkip(r, DependentsOf(r, name)))
+     ELSE ImplInv(r1, K)
 
 NoteQ(r) == NotePrereq([r EXCEPT !.qVer = @ + 1, !.bumped = @ \cup {"q"}], "q")
 NoteU(r) == NotePrereq([r EXCEPT !.uVer = @ + 1, !.bumped = @ \cup {"u"}], "u")
@@ -173,7 +184,7 @@ CanRealize(r, s, g) ==
   /\ \A c \in CEs : CEDef[c].own = s /\ CEDef[c].alloc = g =>
         \A p \in CEDef[c].pre :
             /\ p \in DV => ExD(r, p) \/ (DVDef[p].own = s /\ DVDef[p].alloc = g)
-            /\ p \in CE => ExC(r, p)
+            /\ p \in CE => ExC(r, p) \/ (CEDef[p].own = s /\ CEDef[p].alloc = g)
 
 Realize(r, s, g) ==
   LET newC(c) == c \in CEs /\ CEDef[c].own = s /\ CEDef[c].alloc = g IN
